@@ -605,7 +605,8 @@ def prefix_table(prog, chk):
     for name, hdr, dat in (("8-bit header, 3 octets of payload", [0x01, 0x03], 3), ("16-bit header, 0x0105 octets of payload", [0x82, 0x21, 0x01, 0x05], 0x105),
                            ("16-bit header, 2 octets of payload", [0x80, 0x01, 0x00, 0x02], 2), ("8-bit header, empty payload", [0x05, 0x00], 0)):
         total = len(hdr) + dat
-        for k in sorted(set(range(1, min(total, 7) + 1)) | {total - 1, total}):
+        cuts = range(1, total + 1) if getattr(chk, "tier", "quick") == "thorough" else sorted(set(range(1, min(total, 7) + 1)) | {total - 1, total})
+        for k in cuts:
             if k < 1:
                 continue
             inputs = {mp: Ptr("M"), lp: k, tp: Ptr("T"), "T->hdr_len": 0, "T->dat_len": 0, "T->tag": 0, "T->off": 0, "T->is_nc": 0, "T->is_fwd": 0}
